@@ -615,3 +615,40 @@ _t(
     kept=["/t1/f"],
     accepted=(),
 )
+
+# ---------------------------------------------------------------- T11: kept functions whose results are None / falsy; one function kept twice with
+# different run-time arguments
+_T11 = '''
+G = 0
+
+
+@dds.data_function("/t11/n")
+def fnone():
+    tick.hit("fnone")
+    return None
+
+
+@dds.data_function("/t11/z")
+def fzero():
+    tick.hit("fzero")
+    return 0 if G else ""
+
+
+def g(x):
+    tick.hit("g")
+    return ("g", x)
+
+
+def root(n):
+    a = dds.keep("/t11/a", g, (n, 1))
+    b = dds.keep("/t11/b", g, (n, 2))
+    return ("root", fnone(), fzero(), a, b)
+'''
+_t(
+    "T11",
+    [PKG, ("tq.m1", {"a": HEAD + _T11, "b": HEAD + _T11.replace("(n, 2)", "(n, 3)")})],
+    leaves=[("tq.m1", "G", "int", True)],
+    entry=("tq.m1", "root"),
+    kept=["/t11/n", "/t11/z", "/t11/a", "/t11/b"],
+)
+T["T11"].modules["tq.zclash"] = {"a": clash_source(T["T11"])}
